@@ -14,8 +14,10 @@ def run(res, pool, tier, seed):
         jobs = [dict(module="MC_Config.tla", tag="hist2", spec="CfgSpec", invariants=["CfgInv", "CfgTyped", "PowTen", "EmitHist"],
                      properties=["LastCallDecides"], constants=dict(Exps=EXPS, Mants={1, 2, 5}, MaxLen=2, S=4), batch=12, workers=4)]
     else:
-        jobs = [dict(module="MC_Config.tla", tag="hist3", spec="CfgSpec", invariants=["CfgInv", "CfgTyped", "PowTen", "EmitHist"],
-                     properties=["LastCallDecides"], constants=dict(Exps=EXPS, Mants={1, 2, 5}, MaxLen=3, S=4), batch=12, workers=8,
+        jobs = [dict(module="MC_Config.tla", tag="hist2", spec="CfgSpec", invariants=["CfgInv", "CfgTyped", "PowTen", "EmitHist"],
+                     properties=["LastCallDecides"], constants=dict(Exps=EXPS, Mants={1, 2, 5}, MaxLen=2, S=4), batch=12, workers=4, timeout=7200),
+                dict(module="MC_Config.tla", tag="hist3", spec="CfgSpec", invariants=["CfgInv", "CfgTyped", "PowTen", "EmitHist"],
+                     properties=["LastCallDecides"], constants=dict(Exps={5, 8, 10, 12}, Mants={1, 5}, MaxLen=3, S=4), batch=12, workers=4,
                      timeout=7200)]
     engine.run_jobs(res, jobs, pool)
 
@@ -78,7 +80,7 @@ def replay_case(case, tag, rng, tier):
         if gs != round(-math.log10(ge)):
             bad("C19.config_coherent", "get_sig_figures() != round(-log10(get_eps()))", {"op": "config", "last": calls[-1]["f"]})
         cmps = case["cmp"]
-        for c in rng.sample(cmps, min(len(cmps), 18 if tier == "quick" else 60)):
+        for c in rng.sample(cmps, min(len(cmps), 18 if tier == "quick" else 40)):
             o = case["objs"][c["obj"] - 1]
             delta = {"Tiny": eps / 1000.0, "Small": eps / 100.0, "Big": 4.0 * eps}[c["delta"]]
             ax = c["axis"] - 1
